@@ -787,6 +787,8 @@ class QuantityMachine(Machine):
                         a.to(self._slot(op.get("b", 0))["q"].baseunits)
                     elif name == "rebase":
                         a.rebase()
+                    elif name == "abse" and op.get("e_member") is not None:
+                        a.abse(self._slot(op["e_member"])["q"])
                     elif name == "abse":
                         a.abse(op["e"])
                     elif name == "rele":
